@@ -298,85 +298,104 @@ Proof. intro H. unfold Filter.em. apply abs_eq, H. Qed.
 
 (* ---- get_instances / get_libraries ---- *)
 
-Lemma stageB_found_pats_spec nm pats : forall found e,
-  In e (stageB_found_pats key mt ab pats found nm) <->
-  (exists p, In p pats /\ ab p = true /\ In e (nm_get str_eqb p nm)) \/
-  (In e found /\ exists p, In p pats /\ ab p = false /\ em p e = true).
+Lemma memb_app x (a b : list id) : memb x (a ++ b) = memb x a || memb x b.
 Proof.
-  induction pats as [|p ps IH]; intros found e; cbn [stageB_found_pats].
-  - cbn. split; [intros []|]. intros [(p & [] & _)|(_ & p & [] & _)].
-  - destruct (ab p) eqn:Ea; rewrite in_app_iff, IH.
-    + split.
-      * intros [H|[(q & Hq & H)|(Hf & q & Hq & H)]].
-        -- left. exists p. cbn. auto.
-        -- left. exists q. cbn. tauto.
-        -- right. split; [exact Hf|]. exists q. cbn. tauto.
-      * intros [(q & [<-|Hq] & Hb & H)|(Hf & q & [<-|Hq] & Hb & H)].
-        -- left. exact H.
-        -- right. left. exists q. auto.
-        -- congruence.
-        -- right. right. split; [exact Hf|]. exists q. auto.
-    + rewrite !filter_In, negb_true_iff. split.
-      * intros [[Hf H]|[(q & Hq & H)|([Hf Hn] & q & Hq & H)]].
-        -- right. split; [exact Hf|]. exists p. cbn. auto.
-        -- left. exists q. cbn. tauto.
-        -- right. split; [exact Hf|]. exists q. cbn. tauto.
-      * intros [(q & [<-|Hq] & Hb & H)|(Hf & q & [<-|Hq] & Hb & H)].
-        -- congruence.
-        -- right. left. exists q. auto.
-        -- left. auto.
-        -- destruct (em p e) eqn:Ep; [left; auto|]. right. right. split; [auto|]. exists q. auto.
+  destruct (memb x (a ++ b)) eqn:E1, (memb x a) eqn:E2, (memb x b) eqn:E3; try reflexivity; exfalso;
+    rewrite ?memb_In, ?memb_false in *; rewrite in_app_iff in E1; tauto.
 Qed.
 
-(* what stage B of get_instances / get_libraries yields (as a set): the new elements that match,
-   and again every element already found by stage A that matches a non-absolute pattern *)
-Theorem stageB_found_spec others pats found e :
-  In e (stageB_found key mt ab others pats found) <->
-  others <> [] /\
-  ((In e others /\ ~ In e found /\ any_match pats e = true) \/
-   (In e found /\ exists p, In p pats /\ ab p = false /\ em p e = true)).
+Lemma fresh_ext others : forall f1 f2, (forall x, In x f1 <-> In x f2) -> fresh others f1 = fresh others f2.
 Proof.
-  unfold stageB_found. destruct others as [|o others]; [split; [intros []|intros [H _]; exfalso; apply H; reflexivity]|].
-  set (os := o :: others). rewrite collect_eq.
-  destruct (build_spec str_eqb str_eqb_spec' val (fresh os found) [] (WK_nil _) (fresh_NoDup _ _))
+  induction others as [|x rest IH]; intros f1 f2 H; cbn [fresh]; [reflexivity|].
+  assert (E : memb x f1 = memb x f2).
+  { destruct (memb x f1) eqn:E1, (memb x f2) eqn:E2; try reflexivity; exfalso;
+      rewrite ?memb_In, ?memb_false in *; apply H in E1 || apply H in E2; tauto. }
+  rewrite E. destruct (memb x f2); [apply IH, H|]. f_equal. apply IH. intro y. cbn [In]. rewrite H. tauto.
+Qed.
+
+Lemma collect_fresh_eq others yielded : forall found nm,
+  collect_fresh key others yielded found nm =
+  (rev (fresh others (yielded ++ found)) ++ found, build str_eqb val (fresh others (yielded ++ found)) nm).
+Proof.
+  induction others as [|x rest IH]; intros found nm; cbn [collect_fresh fresh]; [reflexivity|].
+  rewrite memb_app. destruct (memb x yielded || memb x found); [apply IH|]. rewrite IH.
+  rewrite (fresh_ext rest (yielded ++ x :: found) (x :: yielded ++ found))
+    by (intro y; cbn [In]; rewrite !in_app_iff; cbn [In]; tauto).
+  cbn [rev build fold_left]. rewrite <- app_assoc. reflexivity.
+Qed.
+
+Lemma stageB_found_pats_spec nm pats : WK val nm ->
+  forall found, NoDup found -> incl found (elems nm) ->
+  NoDup (stageB_found_pats key mt ab pats found nm) /\
+  forall e, In e (stageB_found_pats key mt ab pats found nm) <-> In e found /\ any_match pats e = true.
+Proof.
+  intros Hwk. induction pats as [|p ps IH]; intros found Hnd Hinc; cbn [stageB_found_pats].
+  - split; [constructor|]. intro e. cbn. split; [intros []|]. intros [_ H]. discriminate.
+  - destruct (ab p) eqn:Ea.
+    + destruct (take (nm_get str_eqb p nm) found) as [y found'] eqn:Et.
+      destruct (take_spec _ _ _ _ Et) as (T1 & T2 & T3 & T4).
+      assert (Hy : forall e, In e y <-> In e found /\ em p e = true).
+      { intro e. rewrite T1, (nm_get_spec str_eqb str_eqb_spec' val nm p e Hwk).
+        rewrite (em_abs p e Ea). split; [tauto|]. intros [H1 H2].
+        repeat split; auto. }
+      destruct (IH found' (T4 Hnd)) as [I1 I2].
+      { intros x Hx. apply T2 in Hx as [Hx _]. apply Hinc, Hx. }
+      split.
+      * apply NoDup_app_iff. repeat split; auto. intros x Hx Hr. apply I2 in Hr as [Hr _].
+        apply T2 in Hr as [_ Hr]. apply T1 in Hx as [Hx _]. contradiction.
+      * intro e. rewrite in_app_iff, I2, Hy, T2, any_match_cons, orb_true_iff. split; [tauto|].
+        intros [Hf [Hm|Hm]]; [tauto|]. destruct (em p e) eqn:Ep; [tauto|]. right.
+        repeat split; auto. intro Hi.
+        assert (In e y) as Hey by (apply T1; tauto). apply Hy in Hey as [_ Hey]. congruence.
+    + destruct (IH (filter (fun e => negb (em p e)) found) (NoDup_filter _ _ Hnd)) as [I1 I2].
+      { intros x Hx. apply filter_In in Hx as [Hx _]. apply Hinc, Hx. }
+      split.
+      * apply NoDup_app_iff. split; [apply NoDup_filter, Hnd|]. split; [exact I1|].
+        intros x Hx Hr. apply filter_In in Hx as [_ Hx]. apply I2 in Hr as [Hr _].
+        apply filter_In in Hr as [_ Hr]. rewrite Hx in Hr. discriminate.
+      * intro e. rewrite in_app_iff, I2, !filter_In, negb_true_iff, any_match_cons, orb_true_iff.
+        split; [tauto|]. intros [Hf [Hm|Hm]]; [tauto|]. destruct (em p e) eqn:Ep; tauto.
+Qed.
+
+(* what stage B of get_instances / get_libraries yields: the collected elements that stage A has not
+   yielded and that match, each once *)
+Theorem stageB_found_full others pats yielded :
+  NoDup (stageB_found key mt ab others pats yielded) /\
+  forall e, In e (stageB_found key mt ab others pats yielded) <->
+            In e others /\ ~ In e yielded /\ any_match pats e = true.
+Proof.
+  unfold stageB_found. destruct others as [|o others]; [split; [constructor|cbn; tauto]|].
+  set (os := o :: others). rewrite collect_fresh_eq, !app_nil_r.
+  destruct (build_spec str_eqb str_eqb_spec' val (fresh os yielded) [] (WK_nil _) (fresh_NoDup _ _))
     as [Hwk Hel]; [intros x _ []|].
-  rewrite stageB_found_pats_spec. split.
-  - intros [(p & Hp & Ha & H)|(Hf & p & Hp & Ha & H)]; (split; [discriminate|]).
-    + apply (nm_get_spec str_eqb str_eqb_spec' val _ _ _ Hwk) in H as [H1 H2].
-      apply Hel in H1 as [[]|H1]. apply fresh_spec in H1. left. split; [tauto|]. split; [tauto|].
-      apply existsb_exists. exists p. split; [exact Hp|]. apply em_abs; assumption.
-    + apply in_app_or in Hf as [Hf|Hf].
-      * apply in_rev in Hf. apply fresh_spec in Hf. left. split; [tauto|]. split; [tauto|].
-        apply existsb_exists. exists p. auto.
-      * right. split; [exact Hf|]. exists p. auto.
-  - intros (_ & [(Ho & Hn & Hm)|(Hf & p & Hp & Ha & H)]).
-    + apply existsb_exists in Hm as (p & Hp & Hm).
-      assert (Hfr : In e (fresh os found)) by (apply fresh_spec; auto).
-      destruct (ab p) eqn:Ea.
-      * left. exists p. repeat split; auto.
-        apply (nm_get_spec str_eqb str_eqb_spec' val _ _ _ Hwk). split; [apply Hel; right; exact Hfr|].
-        apply em_abs; assumption.
-      * right. split; [apply in_or_app; left; apply in_rev; rewrite rev_involutive; exact Hfr|].
-        exists p. auto.
-    + right. split; [apply in_or_app; right; exact Hf|]. exists p. auto.
+  destruct (stageB_found_pats_spec _ pats Hwk (rev (fresh os yielded))) as [H1 H2].
+  - apply NoDup_rev, fresh_NoDup.
+  - intros x Hx. apply Hel. right. apply in_rev. exact Hx.
+  - split; [exact H1|]. intro e. rewrite H2, <- in_rev, fresh_spec. tauto.
 Qed.
 
-(* ---- get_definitions (del_abs = false), get_ports / get_cables (del_abs = true) ---- *)
+Theorem stageB_found_spec others pats yielded e :
+  In e (stageB_found key mt ab others pats yielded) <->
+  In e others /\ ~ In e yielded /\ any_match pats e = true.
+Proof. apply stageB_found_full. Qed.
 
-Lemma stageB_names_pats_spec del_abs pats : forall nm e, WK val nm ->
-  (In e (stageB_names_pats mt ab del_abs pats nm) <-> In e (elems nm) /\ any_match pats e = true).
+Theorem stageB_found_NoDup others pats yielded : NoDup (stageB_found key mt ab others pats yielded).
+Proof. apply stageB_found_full. Qed.
+
+(* ---- get_definitions, get_ports, get_cables ---- *)
+
+Lemma stageB_names_pats_spec pats : forall nm e, WK val nm ->
+  (In e (stageB_names_pats mt ab pats nm) <-> In e (elems nm) /\ any_match pats e = true).
 Proof.
   induction pats as [|p ps IH]; intros nm e Hwk; cbn [stageB_names_pats].
   - cbn. split; [intros []|]. intros [_ H]. discriminate.
   - rewrite any_match_cons, orb_true_iff. destruct (ab p) eqn:Ea; rewrite in_app_iff.
     + rewrite (nm_get_spec str_eqb str_eqb_spec' val nm p e Hwk), (em_abs p e Ea).
-      destruct del_abs.
-      * rewrite IH by (apply WK_filter; exact Hwk). rewrite nm_del_eq.
-        rewrite (elems_filter_spec val (fun n => negb (str_eqb p n)) nm e Hwk), negb_true_iff.
-        split; [tauto|]. intros [H [H1|H1]]; [tauto|]. destruct (str_eqb p (val e)) eqn:E.
-        -- apply str_eqb_spec in E. left. auto.
-        -- right. tauto.
-      * rewrite IH by exact Hwk. tauto.
+      rewrite IH by (apply WK_filter; exact Hwk). rewrite nm_del_eq.
+      rewrite (elems_filter_spec val (fun n => negb (str_eqb p n)) nm e Hwk), negb_true_iff.
+      split; [tauto|]. intros [H [H1|H1]]; [tauto|]. destruct (str_eqb p (val e)) eqn:E.
+      * apply str_eqb_spec in E. left. auto.
+      * right. tauto.
     + rewrite IH by (apply WK_filter; exact Hwk).
       rewrite (elems_filter_spec val (fun n => mt p n) nm e Hwk).
       rewrite (elems_filter_spec val (fun n => negb (mt p n)) nm e Hwk), negb_true_iff.
@@ -385,18 +404,18 @@ Proof.
 Qed.
 
 Lemma stageB_names_pats_NoDup pats : forall nm, WK val nm ->
-  NoDup (stageB_names_pats mt ab true pats nm).
+  NoDup (stageB_names_pats mt ab pats nm).
 Proof.
   induction pats as [|p ps IH]; intros nm Hwk; cbn [stageB_names_pats]; [constructor|].
   destruct (ab p) eqn:Ea; apply NoDup_app_iff.
   - split; [apply nm_get_NoDup, Hwk|]. split; [apply IH, WK_filter, Hwk|].
     intros x Hx Hr. apply (nm_get_spec str_eqb str_eqb_spec' val nm p x Hwk) in Hx as [_ Hx].
-    apply (stageB_names_pats_spec true ps _ x (WK_filter val _ _ Hwk)) in Hr as [Hr _].
+    apply (stageB_names_pats_spec ps _ x (WK_filter val _ _ Hwk)) in Hr as [Hr _].
     apply (elems_filter_spec val (fun n => negb (str_eqb p n)) nm x Hwk) in Hr as [_ Hr].
     rewrite Hx, str_eqb_refl in Hr. discriminate.
   - split; [apply (WK_filter val (fun ne => mt p (fst ne)) nm Hwk)|]. split; [apply IH, WK_filter, Hwk|].
     intros x Hx Hr. apply (elems_filter_spec val (fun n => mt p n) nm x Hwk) in Hx as [_ Hx].
-    apply (stageB_names_pats_spec true ps _ x (WK_filter val _ _ Hwk)) in Hr as [Hr _].
+    apply (stageB_names_pats_spec ps _ x (WK_filter val _ _ Hwk)) in Hr as [Hr _].
     apply (elems_filter_spec val (fun n => negb (mt p n)) nm x Hwk) in Hr as [_ Hr].
     rewrite Hx in Hr. discriminate.
 Qed.
@@ -410,18 +429,18 @@ Proof.
   split; [exact Hwk|]. intro x. rewrite Hel, fresh_spec. cbn. tauto.
 Qed.
 
-Theorem stageB_names_spec del_abs others pats found e :
-  In e (stageB_names key mt ab del_abs others pats found) <->
+Theorem stageB_names_spec others pats found e :
+  In e (stageB_names key mt ab others pats found) <->
   In e others /\ ~ In e found /\ any_match pats e = true.
 Proof.
   unfold stageB_names. destruct others as [|o others]; [cbn; tauto|].
   set (os := o :: others). rewrite collect_eq.
   destruct (collected_nm os found) as [Hwk Hel].
-  rewrite (stageB_names_pats_spec del_abs pats _ e Hwk), Hel. tauto.
+  rewrite (stageB_names_pats_spec pats _ e Hwk), Hel. tauto.
 Qed.
 
 Theorem stageB_names_NoDup others pats found :
-  NoDup (stageB_names key mt ab true others pats found).
+  NoDup (stageB_names key mt ab others pats found).
 Proof.
   unfold stageB_names. destruct others as [|o others]; [constructor|].
   rewrite collect_eq. apply stageB_names_pats_NoDup. apply collected_nm.
